@@ -651,6 +651,7 @@ fn parse_string_token(text: &str) -> IResult<&str, Token> {
     debug_assert!(end_char == '"' || end_char == '\'');
 
     loop {
+        verif_tick!(CssString);
         match chars.next() {
             None => return Ok(("", Token::String(s.into()))),
             Some((i, c)) if c == end_char => {
@@ -995,6 +996,7 @@ fn skip_to_end_of_statement(text: &str) -> IResult<&str, ()> {
 
     let mut bra_stack = vec![];
     loop {
+        verif_tick!(CssSkip);
         let (remain, tok) = match parse_token(rest) {
             Ok(res) => res,
             Err(_) => return Ok((rest, ())),
